@@ -1361,11 +1361,15 @@ fn tokio_clock_main(plan: &Value, out: Arc<Mutex<Vec<String>>>) {
                 _ => {}
             }
         }
+        // plan key `close_with_live_guards`: the stopwatch is closed (by value) while owned guards are still running:
+        // it reports the spans completed so far, the running ones are not part of it
+        let live = if jb(plan, "close_with_live_guards", false) { std::mem::take(&mut owned) } else { BTreeMap::new() };
         for (_, (g, start)) in std::mem::take(&mut owned) {
             drop(g);
             sw_total = Some(sw_total.unwrap_or(0) + (mono - start));
         }
         let rep = sw.close().map(|d| d.as_nanos() as u64);
+        drop(live);
         if rep != sw_total {
             bad(format!("stopwatch_total_wrong: the stopwatch reports {rep:?} ns, its completed spans total {sw_total:?} ns on tokio's (paused, manually moved) clock"));
         }
@@ -1429,7 +1433,8 @@ impl Scenario for TokioClock {
         let install = *rng.pick(&["thread", "runtime", "explicit"]);
         let wall0 = 1_000_000_000_000_000_000u64 + rng.below(900_000_000_000_000_000);
         let pre = if rng.chance(0.5) { adv18(rng) } else { 0 };
-        json!({"sched": sched, "ops": ops, "install": install, "wall0": wall0, "pre_ns": pre})
+        let live_close = rng.clone().next_u64() % 3 == 0;
+        json!({"sched": sched, "ops": ops, "install": install, "wall0": wall0, "pre_ns": pre, "close_with_live_guards": live_close})
     }
     fn run(&self, plan: &Value) -> Report {
         let sched = sched_from_plan(plan);
